@@ -1,22 +1,38 @@
 import AkVerif.Model.Proto
 import AkVerif.Model.Sgr
+import AkVerif.Model.SgrText
 import AkVerif.Gen.C09
-open Ak Ak.Proto Sgr
+open Ak Ak.Proto Sgr SgrText
 
 def cfg : SgrCfg := Gen.C09.sgr
 def cls : CharClass := Gen.C09.stripClass
 def fin : Char := Gen.C09.stripFinal
 
-def parseIntList (s : String) : Option (List Int) :=
-  if s = "-" then some [] else (s.splitOn ",").mapM parseInt
+/-- `12`, `-3` (an `int`) or `2.5`, `-0.25`, `7.0` (a `float`: digits with one `.`) -/
+def parseNum (s : String) : Option Num :=
+  match s.splitOn "." with
+  | [_] => (parseInt s).map Num.int
+  | [a, b] =>
+    if b.isEmpty || !b.all Char.isDigit then none else
+    match parseInt (a ++ b) with
+    | some n => some (Num.flt n (10 ^ b.length))
+    | none => none
+  | _ => none
 
-/-- `N` | `s:<cps>` | `i:<int>` | `t:<ints>` | `o` -/
+def parseNumList (s : String) : Option (List Num) :=
+  if s = "-" then some [] else (s.splitOn ",").mapM parseNum
+
+/-- `N` | `s:<cps>` | `i:<int>` | `f:<decimal>` | `t:<numbers>` | `o` -/
 def parseColor (t : String) : Option ColorSpec :=
   if t = "N" then some .none
   else if t = "o" then some .other
   else if t.startsWith "s:" then (parseCps (t.drop 2).toString).map .str
   else if t.startsWith "i:" then (parseInt (t.drop 2).toString).map .int
-  else if t.startsWith "t:" then (parseIntList (t.drop 2).toString).map .tuple
+  else if t.startsWith "f:" then
+    match parseNum (t.drop 2).toString with
+    | some (.flt n d) => some (.float n d)
+    | _ => none
+  else if t.startsWith "t:" then (parseNumList (t.drop 2).toString).map .tuple
   else none
 
 def parseFlag (c : Char) : Option (Option Bool) :=
@@ -61,6 +77,145 @@ def groupCells : List (Char × Attr) → List (Attr × List Char)
 
 def showBytes (l : List UInt8) : String := showNatList (l.map (·.toNat))
 
+
+/-! several calls in one process: `seq <n> (F <fg> <bg> <eff> <nc> <text> | B <fg> <bg> <eff> <nc> <bytes> | R <k> <text> | P <text>)*n` -/
+def parseCalls : Nat → List String → Option (List Call)
+  | 0, [] => some []
+  | n + 1, "F" :: fg :: bg :: eff :: nc :: text :: rest =>
+    match parseSpec fg bg eff nc, parseCps text, parseCalls n rest with
+    | some s, some t, some cs => some (.fmt s t :: cs)
+    | _, _, _ => none
+  | n + 1, "B" :: fg :: bg :: eff :: nc :: payload :: rest =>
+    match parseSpec fg bg eff nc, parseNatList payload, parseCalls n rest with
+    | some s, some b, some cs => some (.bytes s (b.map (·.toUInt8)) :: cs)
+    | _, _, _ => none
+  | n + 1, "P" :: text :: rest =>
+    match parseCps text, parseCalls n rest with
+    | some t, some cs => some (.plain t :: cs)
+    | _, _ => none
+  | n + 1, "R" :: k :: text :: rest =>
+    match k.toNat?, parseCps text, parseCalls n rest with
+    | some k, some t, some cs => some (.again k t :: cs)
+    | _, _, _ => none
+  | _, _ => none
+
+def showResult : CallResult → String
+  | .str s => "s:" ++ showCps s
+  | .bytes b => "b:" ++ showBytes b
+  | .err e => "e:" ++ e.name
+  | .noObject => "none"
+
+/-! `CHText` values through a palette: `<k> (<fg> <bg> <eff> <nc>)*k` then the program -/
+def parseSpecs : Nat → List String → Option (List Spec × List String)
+  | 0, rest => some ([], rest)
+  | n + 1, fg :: bg :: eff :: nc :: rest =>
+    match parseSpec fg bg eff nc, parseSpecs n rest with
+    | some s, some (ss, r) => some (s :: ss, r)
+    | _, _ => none
+  | _, _ => none
+
+def parseHOp (tok : String) : Option HOp :=
+  match tok.splitOn ":" with
+  | ["a", col, cps] =>
+    match col.toNat?, parseCps cps with
+    | some c, some s => some (.app c s)
+    | _, _ => none
+  | ["p", cps] => (parseCps cps).map .str
+  | ["self"] => some .self
+  | ["selfl"] => some .selfList
+  | ["cl"] => some .clone
+  | ["r"] => some .look
+  | _ => none
+
+def showLook (pal : Palette) (t : CHText.Text) : Option String :=
+  (renderText pal t).map fun s =>
+    showCps s ++ " " ++ showCps (plainText t) ++ " " ++ showCps (strip cls fin s)
+
+def joinLooks : List (Option String) → Option String
+  | [] => some ""
+  | [x] => x
+  | x :: y :: rest =>
+    match x, joinLooks (y :: rest) with
+    | some a, some b => some (a ++ "|" ++ b)
+    | _, _ => none
+
+/-- postfix programs over `CHText.Expr` (the token language of `Drv/C08.lean`, without `iter`) -/
+def popN (n : Nat) (st : List CHText.Expr) : Option (List CHText.Expr × List CHText.Expr) :=
+  if n ≤ st.length then some ((st.take n).reverse, st.drop n) else none
+
+def parseOptInt (s : String) : Option (Option Int) :=
+  if s = "n" then some none else (parseInt s).map some
+
+open CHText in
+def stepTok (st : List Expr) (tok : String) : Option (List Expr) :=
+  match tok.splitOn ":" with
+  | ["s", cps] => (parseCps cps).map fun s => Expr.str s :: st
+  | ["c", col, cps] =>
+    match col.toNat?, parseCps cps with
+    | some c, some s => some (Expr.chunk c s :: st)
+    | _, _ => none
+  | ["ls", n] => do
+    let (items, rest) ← popN (← n.toNat?) st
+    some (Expr.list false items :: rest)
+  | ["tp", n] => do
+    let (items, rest) ← popN (← n.toNat?) st
+    some (Expr.list true items :: rest)
+  | ["mk", n] => do
+    let (items, rest) ← popN (← n.toNat?) st
+    some (Expr.mk items :: rest)
+  | ["add"] => match st with
+    | b :: a :: rest => some (Expr.add a b :: rest)
+    | _ => none
+  | ["iadd"] => match st with
+    | b :: a :: rest => some (Expr.iadd a b :: rest)
+    | _ => none
+  | ["dupiadd"] => match st with
+    | a :: rest => some (Expr.iadd a a :: rest)
+    | _ => none
+  | ["dupiaddl"] => match st with
+    | a :: rest => some (Expr.iadd a (Expr.list false [a]) :: rest)
+    | _ => none
+  | ["join", k, n] => do
+    let (items, rest) ← popN (← n.toNat?) st
+    match rest with
+    | sep :: rest' => if k = "l" then some (Expr.join sep false items :: rest')
+                      else if k = "t" then some (Expr.join sep true items :: rest') else none
+    | [] => none
+  | ["idx", i] => match st, parseInt i with
+    | a :: rest, some k => some (Expr.idx a k :: rest)
+    | _, _ => none
+  | ["sl", i, j] => match st, parseOptInt i, parseOptInt j with
+    | a :: rest, some x, some y => some (Expr.slice a x y :: rest)
+    | _, _, _ => none
+  | ["fl", n] => match st, parseInt n with
+    | a :: rest, some k => some (Expr.fixedLen a k :: rest)
+    | _, _ => none
+  | _ => none
+
+/-- the value of a program as a `CHText` (a chunk result is looked at through `str(chunk)`:
+prefix, text and suffix even when the text is empty) -/
+def showValue (pal : Palette) : Except CHText.Fail CHText.Part → String
+  | .ok (.text t) => match showLook pal t with
+    | some s => "ok " ++ s
+    | none => "bad-pal"
+  | .ok (.chunk c) => match toChunks pal [c] with
+    | some scs => "ok " ++ showCps (render scs) ++ " " ++ showCps c.text ++ " " ++ showCps (strip cls fin (render scs))
+    | none => "bad-pal"
+  | .ok _ => "other"
+  | .error (.py e) => "err " ++ e.name
+  | .error .unmodelled => "unmodelled"
+
+def withPalette (k : String) (rest : List String) (f : Palette → List String → String) : String :=
+  match k.toNat? with
+  | none => "bad-op"
+  | some n =>
+    match parseSpecs n rest with
+    | none => "bad-op"
+    | some (specs, toks) =>
+      match mkPalette cfg specs with
+      | .error e => "err " ++ e.name
+      | .ok pal => if palOk pal then f pal toks else "bad-pal"
+
 def handle (line : String) : String :=
   match splitWs line with
   | ["fmt", fg, bg, eff, nc, text] =>
@@ -89,6 +244,26 @@ def handle (line : String) : String :=
       showExcept (fun c => showCps (render [c]))
         (mkChunk cfg ⟨.none, .none, none, none, none, none, none, false⟩ t)
     | none => "bad-op"
+  | "seq" :: n :: rest =>
+    match n.toNat? with
+    | some k =>
+      match parseCalls k rest with
+      | some calls => "ok " ++ "|".intercalate ((runCalls cfg [] calls).map showResult)
+      | none => "bad-op"
+    | none => "bad-op"
+  | "hist" :: k :: rest =>
+    withPalette k rest fun pal toks =>
+      match toks.mapM parseHOp with
+      | none => "bad-op"
+      | some ops =>
+        match joinLooks ((histRun CHText.Text.empty ops).map (showLook pal)) with
+        | some s => "ok " ++ s
+        | none => "bad-pal"
+  | "ops" :: k :: rest =>
+    withPalette k rest fun pal toks =>
+      match toks.foldlM stepTok [] with
+      | some [e] => showValue pal (CHText.eval e)
+      | _ => "bad-op"
   | ["strip", text] =>
     match parseCps text with
     | some t => "ok " ++ showCps (strip cls fin t)
